@@ -20,6 +20,16 @@ macro "bv_bits" : tactic => `(tactic| (
     BitVec.getElem_not, BitVec.getLsbD_not, BitVec.getElem_zero, BitVec.getLsbD_zero]
   interval_cases i <;> simp [Nat.testBit, Nat.shiftRight_eq_div_pow]))
 
+/-- like `bv_bits`, staying in `getLsbD` form (works through appends whose width indices were written as
+sums): used for the lane-structure lemmas -/
+macro "bv_lsb" : tactic => `(tactic| (
+  apply BitVec.eq_of_getLsbD_eq
+  intro i hi
+  simp only [BitVec.getLsbD_extractLsb', BitVec.getLsbD_ushiftRight, BitVec.getLsbD_append, BitVec.getLsbD_rotateLeft, BitVec.getLsbD_setWidth,
+    BitVec.getLsbD_or, BitVec.getLsbD_and, BitVec.getLsbD_xor, BitVec.getLsbD_shiftLeft, BitVec.getLsbD_ofNat,
+    BitVec.getLsbD_not, BitVec.getLsbD_zero]
+  interval_cases i <;> (simp [Nat.testBit, Nat.shiftRight_eq_div_pow] <;> try grind)))
+
 namespace X86
 
 @[simp] theorem lo64_mk (h l : BitVec 64) : lo64 (mk h l) = l := by
@@ -91,5 +101,81 @@ theorem zipper_shuffle (v : BitVec 128) :
   unfold P.zipHi P.zipLo lo64 hi64
   bv_bits
 
+/-! ### 32-bit lane structure -/
+
+theorem lane32_0 (v : BitVec 128) : lane32 v 0 = (lo64 v).setWidth 32 := by unfold lane32 lo64; bv_lsb
+theorem lane32_1 (v : BitVec 128) : lane32 v 1 = ((lo64 v) >>> 32).setWidth 32 := by unfold lane32 lo64; bv_lsb
+theorem lane32_2 (v : BitVec 128) : lane32 v 2 = (hi64 v).setWidth 32 := by unfold lane32 hi64; bv_lsb
+theorem lane32_3 (v : BitVec 128) : lane32 v 3 = ((hi64 v) >>> 32).setWidth 32 := by unfold lane32 hi64; bv_lsb
+
+/-- two 32-bit halves as one 64-bit lane -/
+def join32 (b a : BitVec 32) : BitVec 64 := a.setWidth 64 ||| (b.setWidth 64 <<< 32)
+
+theorem lo64_mk32 (d c b a : BitVec 32) : lo64 (mk32 d c b a) = join32 b a := by unfold lo64 mk32 join32; bv_lsb
+theorem hi64_mk32 (d c b a : BitVec 32) : hi64 (mk32 d c b a) = join32 d c := by unfold hi64 mk32 join32; bv_lsb
+theorem mk32_eq_mk (d c b a : BitVec 32) : mk32 d c b a = mk (join32 d c) (join32 b a) := by
+  apply ext128 <;> simp only [lo64_mk32, hi64_mk32, lo64_mk, hi64_mk]
+
+set_option maxRecDepth 20000 in
+theorem mk32_lanes (v : BitVec 128) : mk32 (lane32 v 3) (lane32 v 2) (lane32 v 1) (lane32 v 0) = v := by
+  unfold mk32 lane32; bv_lsb
+
+theorem or_mk32 (d c b a d' c' b' a' : BitVec 32) :
+    or_si128 (mk32 d c b a) (mk32 d' c' b' a') = mk32 (d ||| d') (c ||| c') (b ||| b') (a ||| a') := by
+  apply ext128 <;> simp only [lo64_or, hi64_or, lo64_mk32, hi64_mk32, join32] <;> bv_lsb
+
+/-- rotate a 32-bit half left by `n` (0 < n < 32) -/
+def rot32 (n : Nat) (l : BitVec 32) : BitVec 32 := (l <<< n) ||| (l >>> (32 - n))
+
+theorem rot32Lane_join (n : Nat) (h0 : n ≠ 0) (h : n < 32) (x : BitVec 64) :
+    P.rot32Lane n x = join32 (rot32 n ((x >>> 32).setWidth 32)) (rot32 n (x.setWidth 32)) := by
+  have hcl : n % 32 = n := Nat.mod_eq_of_lt h
+  have hcr : ((2 ^ 64 + 32 - n) % 2 ^ 64) % 32 = 32 - n := by omega
+  simp only [P.rot32Lane, hcl, hcr, join32, rot32]
+
+theorem rot32Lane_zero (x : BitVec 64) : P.rot32Lane 0 x = x := by
+  unfold P.rot32Lane
+  simp only [Nat.zero_mod, Nat.sub_zero, Nat.add_mod_left, Nat.reduceMod, BitVec.shiftLeft_zero, BitVec.ushiftRight_zero, BitVec.or_self]
+  bv_lsb
+
+/-! ### shifts, and-not, doubling -/
+
+theorem lo64_srli (a : BitVec 128) (k : Nat) (h : ¬ k > 63) : lo64 (srli_epi64 a k) = lo64 a >>> k := by simp only [srli_epi64, h, ↓reduceIte, lo64_mk]
+theorem hi64_srli (a : BitVec 128) (k : Nat) (h : ¬ k > 63) : hi64 (srli_epi64 a k) = hi64 a >>> k := by simp only [srli_epi64, h, ↓reduceIte, hi64_mk]
+theorem lo64_slli8 (a : BitVec 128) : lo64 (slli_si128 a 8) = 0 := by
+  have : ¬ (8 : Nat) > 15 := by decide
+  simp only [slli_si128, this, ↓reduceIte, lo64]; bv_lsb
+theorem hi64_slli8 (a : BitVec 128) : hi64 (slli_si128 a 8) = lo64 a := by
+  have : ¬ (8 : Nat) > 15 := by decide
+  simp only [slli_si128, this, ↓reduceIte, lo64, hi64]; bv_lsb
+theorem lo64_andnot (a b : BitVec 128) : lo64 (andnot_si128 a b) = ~~~(lo64 a) &&& lo64 b := by
+  unfold lo64 andnot_si128; bv_lsb
+theorem hi64_andnot (a b : BitVec 128) : hi64 (andnot_si128 a b) = ~~~(hi64 a) &&& hi64 b := by
+  unfold hi64 andnot_si128; bv_lsb
+theorem add_self_shl (a : BitVec 64) : a + a = a <<< 1 := by
+  apply BitVec.eq_of_toNat_eq
+  simp only [BitVec.toNat_add, BitVec.toNat_shiftLeft, Nat.shiftLeft_eq]
+  omega
+theorem shl1_shl1 (a : BitVec 64) : (a <<< 1) <<< 1 = a <<< 2 := by bv_lsb
+theorem signBit_lo : lo64 (insert_epi32 (0 : BitVec 128) 0x80000000#32 3) = 0 := by decide
+theorem signBit_hi : hi64 (insert_epi32 (0 : BitVec 128) 0x80000000#32 3) = 0x8000000000000000#64 := by decide
+/-- four rotated 32-bit lanes = the portable per-64-bit-lane rotation -/
+theorem rot_mk32 (v : BitVec 128) (n : Nat) (h0 : n ≠ 0) (h : n < 32) :
+    mk32 (rot32 n (lane32 v 3)) (rot32 n (lane32 v 2)) (rot32 n (lane32 v 1)) (rot32 n (lane32 v 0))
+      = mk (P.rot32Lane n (hi64 v)) (P.rot32Lane n (lo64 v)) := by
+  simp only [mk32_eq_mk, rot32Lane_join n h0 h, lane32_0, lane32_1, lane32_2, lane32_3]
+
+theorem lane32_mk32 (d c b a : BitVec 32) :
+    lane32 (mk32 d c b a) 0 = a ∧ lane32 (mk32 d c b a) 1 = b ∧ lane32 (mk32 d c b a) 2 = c ∧ lane32 (mk32 d c b a) 3 = d := by
+  refine ⟨?_, ?_, ?_, ?_⟩ <;> (unfold lane32 mk32; bv_lsb)
+
+theorem lo64_cmpeq_self (x : BitVec 128) : lo64 (cmpeq_epi64 x x) = 0xFFFFFFFFFFFFFFFF#64 := by simp [cmpeq_epi64, cmpeq64]
+theorem hi64_cmpeq_self (x : BitVec 128) : hi64 (cmpeq_epi64 x x) = 0xFFFFFFFFFFFFFFFF#64 := by simp [cmpeq_epi64, cmpeq64]
+theorem lo64_slli (a : BitVec 128) (k : Nat) (h : ¬ k > 63) : lo64 (slli_epi64 a k) = lo64 a <<< k := by simp only [slli_epi64, h, ↓reduceIte, lo64_mk]
+theorem hi64_slli (a : BitVec 128) (k : Nat) (h : ¬ k > 63) : hi64 (slli_epi64 a k) = hi64 a <<< k := by simp only [slli_epi64, h, ↓reduceIte, hi64_mk]
+theorem lo64_unpacklo (a b : BitVec 128) : lo64 (unpacklo_epi64 a b) = lo64 a := by simp only [unpacklo_epi64, lo64_mk]
+theorem hi64_unpacklo (a b : BitVec 128) : hi64 (unpacklo_epi64 a b) = lo64 b := by simp only [unpacklo_epi64, hi64_mk]
+theorem lo64_zero : lo64 (0 : BitVec 128) = 0 := by decide
+theorem hi64_zero : hi64 (0 : BitVec 128) = 0 := by decide
 end X86
 end HH
